@@ -71,6 +71,7 @@ func router(c config) http.Handler {
 		// every route the real router has registered (chi.Walk) becomes a request target of the generator
 		if rt, ok := h.(chi.Routes); ok {
 			chi.Walk(rt, func(method, route string, _ http.Handler, _ ...func(http.Handler) http.Handler) error {
+				chiMethods[method] = true // chi lists every method of its table for HandleFunc/Mount routes (incl. chi.RegisterMethod additions)
 				t := strings.ReplaceAll(route, "*", "x")
 				if strings.Contains(t, "{") || strings.Contains(t, "pprof") || seenRoute[method+" "+t] {
 					return nil
@@ -298,6 +299,7 @@ func main() {
 	r = hlib.Start()
 	r.Rule = "case = (admin credentials config incl. empty user / empty password, mounted internal handlers, method, request target, Authorization header, internal-proxy headers) served by the real apex router; non-trivial = distinct line; targets: /_internal subtree (mounts, profiler, catch-all, random), near-miss and percent-encoded prefixes, public routes; auth: none / correct / wrong / partial / malformed / duplicated / case-changed"
 	rng := hlib.NewRng(r.Seed)
+	router(configs[0]) // learn chi's method table and the registered routes from the real router
 	if r.Replay != "" {
 		for _, t := range r.ReplayLines() {
 			if t[0] != "apex" || len(t) != 11 {
@@ -326,7 +328,7 @@ func main() {
 		r.Finish()
 		return
 	}
-	methods := []string{"GET", "GET", "GET", "POST", "POST", "PUT", "DELETE", "HEAD", "OPTIONS", "PATCH", "TRACE", "CONNECT", "FOO", "get"}
+	methods := []string{"PROPFIND", "UNLOCK", "GET", "GET", "GET", "POST", "POST", "PUT", "DELETE", "HEAD", "OPTIONS", "PATCH", "TRACE", "CONNECT", "FOO", "get"}
 	n := 30000
 	if r.Thorough() {
 		n = 600000
